@@ -8,4 +8,5 @@ mkdir -p bin evidence replays coq/gen
 (cd coq && ./mkproject.sh && timeout 3000 make -j16 > /tmp/verif-coq-build.log 2>&1) || { tail -30 /tmp/verif-coq-build.log; exit 1; }
 cp /repo/go.sum harness/go.sum
 (cd harness && timeout 1500 go build -tags verif -o ../bin/harness .)
+(cd tools/xlate && timeout 1500 go build -o ../../bin/xlate .)
 echo setup ok
